@@ -156,8 +156,18 @@ unsafe impl GlobalAlloc for GuardAlloc {
     }
 }
 
+/// `FV_NO_GUARD` switches the guard allocator off (memcheck runs: its own
+/// red zones and definedness tracking need the ordinary heap)
+pub fn disabled() -> bool {
+    static D: std::sync::OnceLock<bool> = std::sync::OnceLock::new();
+    *D.get_or_init(|| std::env::var("FV_NO_GUARD").is_ok())
+}
+
 /// Runs `f` with the guard allocator switched on for this thread
 pub fn with_guard<T>(flush: Flush, f: impl FnOnce() -> T) -> T {
+    if disabled() {
+        return f();
+    }
     init();
     let prev = MODE.with(|m| m.replace(if flush == Flush::End { 1 } else { 2 }));
     struct Reset(u8);
@@ -170,14 +180,24 @@ pub fn with_guard<T>(flush: Flush, f: impl FnOnce() -> T) -> T {
     f()
 }
 
-/// A caller-owned slice placed flush against a guard page
+/// A caller-owned slice placed flush against a guard page (or an exact-size
+/// heap block when the guard allocator is disabled)
 pub struct GuardedSlice<T: Copy> {
     ptr: *mut T,
     len: usize,
+    heap: Option<Box<[T]>>,
 }
 
 impl<T: Copy> GuardedSlice<T> {
     pub fn new(data: &[T], flush: Flush) -> Self {
+        if disabled() {
+            let mut b: Box<[T]> = data.to_vec().into_boxed_slice();
+            return GuardedSlice {
+                ptr: b.as_mut_ptr(),
+                len: data.len(),
+                heap: Some(b),
+            };
+        }
         init();
         let size = std::mem::size_of_val(data);
         let p = unsafe { guard_alloc(size, std::mem::align_of::<T>(), flush) }
@@ -189,6 +209,7 @@ impl<T: Copy> GuardedSlice<T> {
         GuardedSlice {
             ptr: p,
             len: data.len(),
+            heap: None,
         }
     }
 }
@@ -202,8 +223,13 @@ impl<T: Copy> std::ops::Deref for GuardedSlice<T> {
 
 impl<T: Copy> Drop for GuardedSlice<T> {
     fn drop(&mut self) {
-        unsafe {
-            guard_free(self.ptr as *mut u8, self.len * std::mem::size_of::<T>())
+        if self.heap.is_none() {
+            unsafe {
+                guard_free(
+                    self.ptr as *mut u8,
+                    self.len * std::mem::size_of::<T>(),
+                )
+            }
         }
     }
 }
